@@ -10,6 +10,7 @@
   * `batchAdd_spec`: what one recorded move looks like.
 -/
 import ArcheProofs.Props.C01_ExchangeGen64
+import ArcheProofs.Props.C08_RemoveGen64
 
 namespace Arche.Props.C08_BatchGen64
 open ArcheGen ArcheGen.P64 Arche Arche.Props
@@ -235,6 +236,251 @@ theorem exchangeArch_frame (hFind : C01_ExchangeGen64.FindFrame findOrCreateF)
   rw [← hq.1]
   exact BFrame.trans (BFrame.trans hw5 hw8) (BFrame.of_cache (C02_Remove64.cleanupArchetype_frame archActiveF archHasRelationF archLenF archMaskF archNodeF archTargetF matchesF nodeHasRelationF
     nodeRemoveArchetypeF _ _ _ _ _ hclean))
+
+/-- the per-table worker of `Batch.SetRelation` / `Relations.SetBatch` has the same frame -/
+theorem setRelationArch_frame (w w' : P64.World) (old : Option Nat) (n : BitVec 32) (comp : BitVec 8) (target : P64.Entity)
+    (ext ext' : Ext) (r : Option Nat × BitVec 32 × BitVec 32)
+    (h : P64.World.setRelationArch archActiveF archAllocNF archComponentsF archGetEntityF archGetF archHasComponentF archHasRelationF archInitF archLenF archMaskF
+      archNodeF archResetF archSetEntityF archSetPointerF archTargetF matchesF nodeCreateArchetypeF nodeGetArchetypeF nodeHasRelationF nodeRelationF
+      nodeRemoveArchetypeF nodeSetArchetypeF pagedAddF pagedGetF pagedLenF relationTargetF w old n comp target ext = some (w', ext', r)) :
+    BFrame w w' := by
+  unfold P64.World.setRelationArch at h
+  simp only [Option.bind_eq_bind, pure] at h
+  obtain ⟨w1, hchk, hq⟩ := Option.bind_eq_some_iff.mp h
+  clear h; have h := hq; clear hq
+  have hw1 : w1 = w := C05_SetRelGen64.checkRelation_same _ _ _ _ _ _ _ _ hchk
+  subst hw1
+  obtain ⟨_, _, hq⟩ := Option.bind_eq_some_iff.mp h
+  clear h; have h := hq; clear hq
+  obtain ⟨_, _, hq⟩ := Option.bind_eq_some_iff.mp h
+  clear h; have h := hq; clear hq
+  obtain ⟨_, _, hq⟩ := Option.bind_eq_some_iff.mp h
+  clear h; have h := hq; clear hq
+  obtain ⟨⟨w2, e2, a2⟩, hj, hq⟩ := Option.bind_eq_some_iff.mp h
+  clear h; have h := hq; clear hq
+  have hw2 : BFrame w1 w2 := by
+    split at hj
+    · obtain ⟨_, _, hj⟩ := Option.bind_eq_some_iff.mp hj
+      obtain ⟨⟨wc, ec, ac⟩, hcreate, hj⟩ := Option.bind_eq_some_iff.mp hj
+      simp only [Option.some.injEq, Prod.mk.injEq] at hj
+      rw [← hj.1]
+      exact BFrame.of_cache (C05_SetRelGen64.createArchetype_frame archHasRelationF archInitF archMaskF archTargetF matchesF nodeCreateArchetypeF nodeHasRelationF
+        nodeSetArchetypeF pagedAddF pagedGetF pagedLenF relationTargetF _ _ _ _ _ _ _ _ hcreate)
+    · simp only [Option.some.injEq, Prod.mk.injEq] at hj
+      rw [← hj.1]; exact BFrame.refl _
+  try dsimp only at h
+  obtain ⟨_, _, hq⟩ := Option.bind_eq_some_iff.mp h
+  clear h; have h := hq; clear hq
+  obtain ⟨_, _, hq⟩ := Option.bind_eq_some_iff.mp h
+  clear h; have h := hq; clear hq
+  obtain ⟨⟨w5, e5⟩, hrows, hq⟩ := Option.bind_eq_some_iff.mp h
+  clear h; have h := hq; clear hq
+  have hw5 : BFrame w1 w5 := by
+    have := C02_Remove64.foldlM_inv (fun (s : P64.World × Ext) => BFrame w1 s.1) _ ?_ _ _ _ hw2 hrows
+    · exact this
+    · intro s k s' hs hk
+      obtain ⟨sw, se⟩ := s
+      try dsimp only at hk hs
+      obtain ⟨_, _, hk⟩ := Option.bind_eq_some_iff.mp hk
+      obtain ⟨_, _, hk⟩ := Option.bind_eq_some_iff.mp hk
+      obtain ⟨c17, _, hk⟩ := Option.bind_eq_some_iff.mp hk
+      obtain ⟨u18, _, hk⟩ := Option.bind_eq_some_iff.mp hk
+      obtain ⟨c20, _, hk⟩ := Option.bind_eq_some_iff.mp hk
+      obtain ⟨u21, _, hk⟩ := Option.bind_eq_some_iff.mp hk
+      obtain ⟨⟨w6, e6⟩, hinner, hk⟩ := Option.bind_eq_some_iff.mp hk
+      simp only [Option.some.injEq] at hk
+      rw [← hk]
+      have hin := C02_Remove64.foldlM_inv (fun (s : P64.World × Ext) => s.1 = { sw with entities := u21 }) _ ?_ _ _ _ rfl hinner
+      · try dsimp only at hin
+        rw [hin]
+        exact BFrame.trans hs rfl
+      · intro s2 k2 s2' hs2 hk2
+        obtain ⟨_, _, hk2⟩ := Option.bind_eq_some_iff.mp hk2
+        obtain ⟨_, _, hk2⟩ := Option.bind_eq_some_iff.mp hk2
+        obtain ⟨_, _, hk2⟩ := Option.bind_eq_some_iff.mp hk2
+        simp only [Option.some.injEq] at hk2
+        rw [← hk2]; exact hs2
+  obtain ⟨_, _, hq⟩ := Option.bind_eq_some_iff.mp h
+  clear h; have h := hq; clear hq
+  obtain ⟨⟨w8, e8⟩, hflag, hq⟩ := Option.bind_eq_some_iff.mp h
+  clear h; have h := hq; clear hq
+  have hw8 : BFrame w5 w8 := by
+    split at hflag
+    · obtain ⟨_, _, hflag⟩ := Option.bind_eq_some_iff.mp hflag
+      simp only [Option.some.injEq, Prod.mk.injEq] at hflag
+      rw [← hflag.1]; rfl
+    · simp only [Option.some.injEq, Prod.mk.injEq] at hflag
+      rw [← hflag.1]; exact BFrame.refl _
+  obtain ⟨_, _, hq⟩ := Option.bind_eq_some_iff.mp h
+  clear h; have h := hq; clear hq
+  obtain ⟨⟨w9, e9⟩, hclean, hq⟩ := Option.bind_eq_some_iff.mp h
+  clear h; have h := hq; clear hq
+  have hw9 : BFrame w8 w9 := BFrame.of_cache (C02_Remove64.cleanupArchetype_frame archActiveF archHasRelationF archLenF archMaskF archNodeF archTargetF matchesF nodeHasRelationF
+    nodeRemoveArchetypeF _ _ _ _ _ hclean)
+  try dsimp only at h
+  obtain ⟨_, _, hq⟩ := Option.bind_eq_some_iff.mp h
+  simp only [Option.some.injEq, Prod.mk.injEq] at hq
+  rw [← hq.1]
+  exact BFrame.trans (BFrame.trans hw5 hw8) hw9
+
+/-- `Alive` hands the pool back unchanged -/
+theorem alive_same (p p' : entityPool) (e : P64.Entity) (b : Bool) (h : entityPool.Alive p e = some (p', b)) : p' = p := by
+  cases ha : Pool.alive? (C02_Pool64.absPool p) (C02_Pool64.absE e) with
+  | none => rw [C02_Create64.alive_none _ _ ha] at h; cases h
+  | some bb =>
+    rw [C02_Create64.alive_eq _ _ _ ha] at h
+    simp only [Option.some.injEq, Prod.mk.injEq] at h
+    exact h.1.symm
+
+/-- **the whole batch exchange (`Batch.Add / Remove / Exchange`, `Relations.ExchangeBatch`) touches the entity index, the
+    target flags, the filter cache and the node lists only** (given the frame of the graph walk) -/
+theorem exchangeBatch_frame (hFind : C01_ExchangeGen64.FindFrame findOrCreateF)
+    (w w' : P64.World) (f : GoAny) (add rem : GoSlice (BitVec 8)) (rel : BitVec 8) (hasRel : Bool) (target : P64.Entity)
+    (b b' : batchArchetypes) (ext ext' : Ext) (n : Int)
+    (h : P64.World.exchangeBatchNoNotify archActiveF archAllocNF archComponentsF archGetEntityF archGetF archHasRelationF archLenF archMaskF archNodeF archResetF
+      archSetEntityF archSetPointerF archTargetF archsGetF archsLenF asCachedFilterF findOrCreateF matchesF nodeActiveF nodeArchMapF nodeArchetypesF
+      nodeHasRelationF nodeMatchesF nodeRemoveArchetypeF relationTargetF w f add rem rel hasRel target b ext = some (w', b', ext', n)) :
+    BFrame w w' := by
+  unfold P64.World.exchangeBatchNoNotify at h
+  rw [C09_WorldLock64.checkLocked_spec] at h
+  by_cases hl : LockMask.isLocked (C09_LockPool64.absLM w.locks) = true
+  · simp [hl, bind, Option.bind] at h
+  simp only [hl, Bool.false_eq_true, ↓reduceIte, Option.bind_eq_bind, Option.bind_some, pure] at h
+  split at h
+  · split at h
+    · cases h
+    · simp only [Option.some.injEq, Prod.mk.injEq] at h
+      rw [← h.1]; exact BFrame.refl _
+  obtain ⟨b3, _, hq⟩ := Option.bind_eq_some_iff.mp h
+  clear h; have h := hq; clear hq
+  obtain ⟨⟨b6, w1⟩, halive, hq⟩ := Option.bind_eq_some_iff.mp h
+  clear h; have h := hq; clear hq
+  have hw1 : w1 = w := by
+    split at halive
+    · obtain ⟨⟨p, r⟩, hal, halive⟩ := Option.bind_eq_some_iff.mp halive
+      simp only [Option.some.injEq, Prod.mk.injEq] at halive
+      rw [← halive.2, alive_same _ _ _ _ hal]
+    · simp only [Option.some.injEq, Prod.mk.injEq] at halive
+      exact halive.2.symm
+  subst hw1
+  try dsimp only at h
+  split at h
+  · cases h
+  obtain ⟨⟨w2, arches⟩, hget, hq⟩ := Option.bind_eq_some_iff.mp h
+  clear h; have h := hq; clear hq
+  have hw2 : w2 = w1 := C08_RemoveGen64.getArchetypes_same _ _ _ _ _ _ _ _ _ _ _ _ _ _ hget
+  subst hw2
+  try dsimp only at h
+  obtain ⟨lengths, _, hq⟩ := Option.bind_eq_some_iff.mp h
+  clear h; have h := hq; clear hq
+  obtain ⟨⟨w3, b3', e3, t3, l3⟩, hloop1, hq⟩ := Option.bind_eq_some_iff.mp h
+  clear h; have h := hq; clear hq
+  have hw3 : w3 = w2 := by
+    have := C02_Remove64.foldlM_inv (fun (s : P64.World × batchArchetypes × Ext × BitVec 32 × GoSlice (BitVec 32)) => s.1 = w2) _ ?_ _ _ _ rfl hloop1
+    · exact this
+    · intro s k s' hs hk
+      obtain ⟨_, _, hk⟩ := Option.bind_eq_some_iff.mp hk
+      obtain ⟨_, _, hk⟩ := Option.bind_eq_some_iff.mp hk
+      obtain ⟨_, _, hk⟩ := Option.bind_eq_some_iff.mp hk
+      obtain ⟨_, _, hk⟩ := Option.bind_eq_some_iff.mp hk
+      obtain ⟨_, _, hk⟩ := Option.bind_eq_some_iff.mp hk
+      simp only [Option.some.injEq] at hk
+      rw [← hk]; exact hs
+  subst hw3
+  try dsimp only at h
+  obtain ⟨⟨w4, b4, e4, t4, l4⟩, hloop2, hq⟩ := Option.bind_eq_some_iff.mp h
+  simp only [Option.some.injEq, Prod.mk.injEq] at hq
+  rw [← hq.1]
+  have := C02_Remove64.foldlM_inv (fun (s : P64.World × batchArchetypes × Ext × BitVec 32 × GoSlice (BitVec 32)) => BFrame w3 s.1) _ ?_ _ _ _ (BFrame.refl _) hloop2
+  · exact this
+  · intro s k s' hs hk
+    obtain ⟨sw, sb, se, st, sl⟩ := s
+    try dsimp only at hk hs
+    obtain ⟨_, _, hk⟩ := Option.bind_eq_some_iff.mp hk
+    obtain ⟨_, _, hk⟩ := Option.bind_eq_some_iff.mp hk
+    obtain ⟨_, _, hk⟩ := Option.bind_eq_some_iff.mp hk
+    split at hk
+    · simp only [Option.some.injEq] at hk; rw [← hk]; exact hs
+    · obtain ⟨⟨wa, ea, ra⟩, harch, hk⟩ := Option.bind_eq_some_iff.mp hk
+      obtain ⟨_, _, hk⟩ := Option.bind_eq_some_iff.mp hk
+      obtain ⟨_, _, hk⟩ := Option.bind_eq_some_iff.mp hk
+      simp only [Option.some.injEq] at hk
+      rw [← hk]
+      exact BFrame.trans hs (exchangeArch_frame archActiveF archAllocNF archComponentsF archGetEntityF archGetF archHasRelationF archLenF archMaskF archNodeF archResetF
+        archSetEntityF archSetPointerF archTargetF findOrCreateF matchesF nodeHasRelationF nodeRemoveArchetypeF hFind _ _ _ _ _ _ _ _ _ _ _ _ harch)
+
+/-- the same for `Batch.SetRelation` / `Relations.SetBatch` -/
+theorem setRelBatch_frame (w w' : P64.World) (f : GoAny) (comp : BitVec 8) (target : P64.Entity) (b b' : batchArchetypes) (ext ext' : Ext) (n : Int)
+    (h : P64.World.setRelationBatchNoNotify archActiveF archAllocNF archComponentsF archGetEntityF archGetF archHasComponentF archHasRelationF archInitF archLenF
+      archMaskF archNodeF archResetF archSetEntityF archSetPointerF archTargetF archsGetF archsLenF asCachedFilterF matchesF nodeActiveF nodeArchMapF
+      nodeArchetypesF nodeCreateArchetypeF nodeGetArchetypeF nodeHasRelationF nodeMatchesF nodeRelationF nodeRemoveArchetypeF nodeSetArchetypeF
+      pagedAddF pagedGetF pagedLenF relationTargetF w f comp target b ext = some (w', b', ext', n)) :
+    BFrame w w' := by
+  unfold P64.World.setRelationBatchNoNotify at h
+  rw [C09_WorldLock64.checkLocked_spec] at h
+  by_cases hl : LockMask.isLocked (C09_LockPool64.absLM w.locks) = true
+  · simp [hl, bind, Option.bind] at h
+  simp only [hl, Bool.false_eq_true, ↓reduceIte, Option.bind_eq_bind, Option.bind_some, pure] at h
+  obtain ⟨r2, _, hq⟩ := Option.bind_eq_some_iff.mp h
+  clear h; have h := hq; clear hq
+  obtain ⟨⟨b5, w1⟩, halive, hq⟩ := Option.bind_eq_some_iff.mp h
+  clear h; have h := hq; clear hq
+  have hw1 : w1 = w := by
+    split at halive
+    · obtain ⟨⟨p, r⟩, hal, halive⟩ := Option.bind_eq_some_iff.mp halive
+      simp only [Option.some.injEq, Prod.mk.injEq] at halive
+      rw [← halive.2, alive_same _ _ _ _ hal]
+    · simp only [Option.some.injEq, Prod.mk.injEq] at halive
+      exact halive.2.symm
+  subst hw1
+  try dsimp only at h
+  split at h
+  · cases h
+  obtain ⟨⟨w2, arches⟩, hget, hq⟩ := Option.bind_eq_some_iff.mp h
+  clear h; have h := hq; clear hq
+  have hw2 : w2 = w1 := C08_RemoveGen64.getArchetypes_same _ _ _ _ _ _ _ _ _ _ _ _ _ _ hget
+  subst hw2
+  try dsimp only at h
+  obtain ⟨lengths, _, hq⟩ := Option.bind_eq_some_iff.mp h
+  clear h; have h := hq; clear hq
+  obtain ⟨⟨w3, b3', e3, t3, l3⟩, hloop1, hq⟩ := Option.bind_eq_some_iff.mp h
+  clear h; have h := hq; clear hq
+  have hw3 : w3 = w2 := by
+    have := C02_Remove64.foldlM_inv (fun (s : P64.World × batchArchetypes × Ext × BitVec 32 × GoSlice (BitVec 32)) => s.1 = w2) _ ?_ _ _ _ rfl hloop1
+    · exact this
+    · intro s k s' hs hk
+      obtain ⟨_, _, hk⟩ := Option.bind_eq_some_iff.mp hk
+      obtain ⟨_, _, hk⟩ := Option.bind_eq_some_iff.mp hk
+      obtain ⟨_, _, hk⟩ := Option.bind_eq_some_iff.mp hk
+      obtain ⟨_, _, hk⟩ := Option.bind_eq_some_iff.mp hk
+      obtain ⟨_, _, hk⟩ := Option.bind_eq_some_iff.mp hk
+      simp only [Option.some.injEq] at hk
+      rw [← hk]; exact hs
+  subst hw3
+  try dsimp only at h
+  obtain ⟨⟨w4, b4, e4, t4, l4⟩, hloop2, hq⟩ := Option.bind_eq_some_iff.mp h
+  simp only [Option.some.injEq, Prod.mk.injEq] at hq
+  rw [← hq.1]
+  have := C02_Remove64.foldlM_inv (fun (s : P64.World × batchArchetypes × Ext × BitVec 32 × GoSlice (BitVec 32)) => BFrame w3 s.1) _ ?_ _ _ _ (BFrame.refl _) hloop2
+  · exact this
+  · intro s k s' hs hk
+    obtain ⟨sw, sb, se, st, sl⟩ := s
+    try dsimp only at hk hs
+    obtain ⟨_, _, hk⟩ := Option.bind_eq_some_iff.mp hk
+    obtain ⟨_, _, hk⟩ := Option.bind_eq_some_iff.mp hk
+    obtain ⟨_, _, hk⟩ := Option.bind_eq_some_iff.mp hk
+    split at hk
+    · simp only [Option.some.injEq] at hk; rw [← hk]; exact hs
+    · obtain ⟨_, _, hk⟩ := Option.bind_eq_some_iff.mp hk
+      split at hk
+      · simp only [Option.some.injEq] at hk; rw [← hk]; exact hs
+      · obtain ⟨⟨wa, ea, ra⟩, harch, hk⟩ := Option.bind_eq_some_iff.mp hk
+        obtain ⟨_, _, hk⟩ := Option.bind_eq_some_iff.mp hk
+        simp only [Option.some.injEq] at hk
+        rw [← hk]
+        exact BFrame.trans hs (setRelationArch_frame archActiveF archAllocNF archComponentsF archGetEntityF archGetF archHasComponentF archHasRelationF archInitF archLenF archMaskF
+          archNodeF archResetF archSetEntityF archSetPointerF archTargetF matchesF nodeCreateArchetypeF nodeGetArchetypeF nodeHasRelationF nodeRelationF
+          nodeRemoveArchetypeF nodeSetArchetypeF pagedAddF pagedGetF pagedLenF relationTargetF _ _ _ _ _ _ _ _ _ harch)
 
 end
 
